@@ -503,6 +503,8 @@ __dump_metadata_keys() {
 	# and directly screw w/ it for speed reasons- about 5% speedup in metadata regen.
 	set -f
 	local key phases phase
+	local -a words
+	local IFS=$' \t\n'
 	for key in "${PKGCORE_METADATA_KEYS[@]}"; do
 		if [[ ${key} == DEFINED_PHASES ]]; then
 			for phase in "${PKGCORE_EBUILD_PHASES[@]}"; do
@@ -512,13 +514,15 @@ __dump_metadata_keys() {
 		else
 			# deref the val, if it's not empty/unset, then spit a key command to EBD
 			# after using echo to normalize whitespace (specifically removal of newlines)
-			if [[ ${!key:-unset} != "unset" ]]; then
+			if [[ -n ${!key} ]]; then
 				# note that we explicitly bypass the normal functions, and directly
 				# write to the FD. This is done since it's about 25% faster for our usage;
 				# if we used the functions, we'd have to subshell the 'echo ${!key}', which
 				# because of bash behaviour, means the content would be read byte by byte.
-				echo -n "key ${key}=" >&${PKGCORE_EBD_WRITE_FD}
-				echo ${!key} >&${PKGCORE_EBD_WRITE_FD}
+				# printf rather than echo: a value starting with -n/-e/-E (e.g. IUSE="-e foo")
+				# must not be taken as echo options.
+				words=( ${!key} )
+				printf 'key %s=%s\n' "${key}" "${words[*]}" >&${PKGCORE_EBD_WRITE_FD}
 			fi
 		fi
 	done
